@@ -61,6 +61,8 @@ pub enum K {
     NewFileWritten,
     /// macro: open an existing path (kept in a slot), seek, read
     OpenSeekRead,
+    /// macro: seek somewhere inside the file, then truncate there
+    SeekTruncate,
 }
 
 #[derive(Clone, Debug)]
@@ -132,6 +134,7 @@ impl GenCfg {
                 (K::Tick, 1),
                 (K::NewFileWritten, 10),
                 (K::OpenSeekRead, 6),
+                (K::SeekTruncate, 5),
             ],
             invalid_names: false,
             rich_names: false,
@@ -162,6 +165,7 @@ impl GenCfg {
                 (K::Tick, 1),
                 (K::NewFileWritten, 10),
                 (K::OpenSeekRead, 3),
+                (K::SeekTruncate, 3),
             ],
             tiny_free_pct: 50,
             ..GenCfg::namespace()
@@ -327,23 +331,44 @@ fn biased(sel: u16, table: &[(u8, u32)]) -> u8 {
     table[table.len() - 1].0
 }
 
-pub fn decode_op(gc: &GenCfg, nt: &NameTable, cs: u32, r: &RawOp) -> Vec<Op> {
+/// `mem`: paths named by earlier create / rename-destination ops of the same history; lookups, removes and rename
+/// sources reuse them with high probability, so that histories act on objects that exist (still a pure function of
+/// the raw numbers, so shrinking works)
+pub fn decode_op(gc: &GenCfg, nt: &NameTable, cs: u32, r: &RawOp, mem: &mut Vec<String>) -> Vec<Op> {
     let k = pick_kind(&gc.weights, r.kind);
     // slot choices are biased towards the first slots so that handle ops usually find an open handle
     let via = biased(r.d.wrapping_mul(40503), &[(0, 60), (1, 22), (2, 10), (3, 5), (4, 3)]);
     let keep = biased(r.d.wrapping_mul(25173).wrapping_add(13849), &[(0, 30), (1, 38), (2, 20), (3, 8), (4, 4)]);
     let h = biased(r.d.wrapping_mul(30011).wrapping_add(7), &[(0, 58), (1, 25), (2, 11), (3, 6)]);
     let shape = r.d.rotate_left(7) ^ (r.n as u16);
+    let fresh = nt.path(r.a, r.b, r.c, shape, gc.max_depth);
+    let reuse_sel = (r.x as u64 >> 20) as u32 % 100;
+    let known = if !mem.is_empty() && reuse_sel < 68 { mem[(r.a as usize * mem.len()) >> 16].clone() } else { fresh.clone() };
+    let remember = |mem: &mut Vec<String>, p: &str| {
+        let t = p.trim_matches('/').to_string();
+        if !t.is_empty() && !mem.contains(&t) && mem.len() < 24 {
+            mem.push(t);
+        }
+    };
     let one = match k {
         K::List => Op::List { via },
         K::Stats => Op::Stats,
         K::Status => Op::Status,
         K::Labels => Op::Labels,
         K::Tick => Op::Tick { ms: r.n % 200_000_000 },
-        K::OpenFile => Op::OpenFile { via, path: nt.path(r.a, r.b, r.c, shape, gc.max_depth), keep },
-        K::OpenDir => Op::OpenDir { via, path: nt.path(r.a, r.b, r.c, shape, gc.max_depth), keep },
-        K::CreateFile => Op::CreateFile { via, path: nt.path(r.a, r.b, r.c, shape, gc.max_depth), keep },
-        K::CreateDir => Op::CreateDir { via, path: nt.path(r.a, r.b, r.c, shape, gc.max_depth), keep },
+        K::OpenFile => Op::OpenFile { via, path: known, keep },
+        K::OpenDir => Op::OpenDir { via, path: known, keep },
+        K::CreateFile => {
+            // sometimes create below a directory created earlier
+            let p = if !mem.is_empty() && reuse_sel >= 80 { format!("{}/{}", mem[(r.b as usize * mem.len()) >> 16], nt.name(r.a)) } else { fresh };
+            remember(mem, &p);
+            Op::CreateFile { via, path: p, keep }
+        }
+        K::CreateDir => {
+            let p = if !mem.is_empty() && reuse_sel >= 85 { format!("{}/{}", mem[(r.b as usize * mem.len()) >> 16], nt.name(r.a)) } else { fresh };
+            remember(mem, &p);
+            Op::CreateDir { via, path: p, keep }
+        }
         K::Write => Op::Write { h, len: io_len(r.n, cs, gc.max_io_pct), seed: (r.a >> 8) as u8 },
         K::Read => Op::Read { h, len: io_len(r.n, cs, gc.max_io_pct) },
         K::Seek => {
@@ -354,12 +379,17 @@ pub fn decode_op(gc: &GenCfg, nt: &NameTable, cs: u32, r: &RawOp) -> Vec<Op> {
         K::CloseFile => Op::CloseFile { h },
         K::CloseDir => Op::CloseDir { d: h },
         K::Truncate => Op::Truncate { h },
-        K::Remove => Op::Remove { via, path: nt.path(r.a, r.b, r.c, shape, gc.max_depth) },
+        K::Remove => Op::Remove { via, path: known },
         K::Rename => {
             let dvia = ((r.d >> 9) & 0x7) as u8;
             let dvia = if dvia > 4 { 0 } else { dvia };
-            let src = nt.path(r.a, r.b, r.c, shape, gc.max_depth);
-            let dst = nt.path(r.c ^ (r.n as u16), r.a.rotate_left(5) ^ (r.x as u16), r.b, shape.rotate_left(3), gc.max_depth);
+            let src = known;
+            let mut dst = nt.path(r.c ^ (r.n as u16), r.a.rotate_left(5) ^ (r.x as u16), r.b, shape.rotate_left(3), gc.max_depth);
+            if !mem.is_empty() && (r.n >> 9) % 100 < 35 {
+                // move below a path named earlier (a directory, with luck)
+                dst = format!("{}/{}", mem[(r.c as usize * mem.len()) >> 16], nt.name(r.b));
+            }
+            remember(mem, &dst);
             Op::Rename { via, src, dvia, dst }
         }
         K::SetTimes => Op::SetTimes { h, which: (r.a % 3) as u8, ms: (r.x as u64) % Ts::MAX_MS },
@@ -368,7 +398,8 @@ pub fn decode_op(gc: &GenCfg, nt: &NameTable, cs: u32, r: &RawOp) -> Vec<Op> {
         K::NewFileWritten => {
             let slot = keep.max(1);
             let hh = slot - 1;
-            let mut v = vec![Op::CreateFile { via, path: nt.path(r.a, r.b, r.c, shape, gc.max_depth), keep: slot }];
+            remember(mem, &fresh);
+            let mut v = vec![Op::CreateFile { via, path: fresh, keep: slot }];
             v.push(Op::Write { h: hh, len: io_len(r.n, cs, gc.max_io_pct), seed: (r.a >> 8) as u8 });
             if r.x & 1 != 0 {
                 v.push(Op::Write { h: hh, len: io_len(r.n.rotate_left(9), cs, gc.max_io_pct), seed: (r.b >> 8) as u8 });
@@ -385,10 +416,14 @@ pub fn decode_op(gc: &GenCfg, nt: &NameTable, cs: u32, r: &RawOp) -> Vec<Op> {
             let hh = slot - 1;
             let (whence, off) = seek_off(r.x, r.n, cs);
             return vec![
-                Op::OpenFile { via, path: nt.path(r.a, r.b, r.c, shape, gc.max_depth), keep: slot },
+                Op::OpenFile { via, path: known, keep: slot },
                 Op::Seek { h: hh, whence, off },
                 Op::Read { h: hh, len: io_len(r.n.rotate_left(7), cs, gc.max_io_pct) },
             ];
+        }
+        K::SeekTruncate => {
+            let (_, off) = seek_off(r.x, r.n, cs);
+            return vec![Op::Seek { h, whence: 0, off: off.rem_euclid(3 * cs as i64 + 2) }, Op::Truncate { h }];
         }
     };
     vec![one]
@@ -454,7 +489,8 @@ pub fn case_strategy(gc: GenCfg) -> impl Strategy<Value = Case> {
         let vol = decode_vol(&gc, &rv);
         let nt = NameTable::new(&gc, &extra);
         let cs = vol.cluster_size();
-        let ops = raws.iter().flat_map(|r| decode_op(&gc, &nt, cs, r)).collect();
+        let mut mem: Vec<String> = Vec::new();
+        let ops = raws.iter().flat_map(|r| decode_op(&gc, &nt, cs, r, &mut mem)).collect();
         Case { vol, ops }
     })
 }
